@@ -185,7 +185,7 @@ def _is_instance(obj: Any, type_: Any, type_vars: Dict[TypeVar_, Any], context: 
                         f'For TypeVar {type_} exists a type conflict: value {obj} has type {type(obj)} but TypeVar {type_} '
                         f'was previously matched to type {other}')
             else:
-                if isinstance(other, type):
+                if isinstance(other, type) and other is not Any:
                     matches = isinstance(obj, other)  # a class the TypeVar was bound to (e.g. list), not an annotation
                 else:
                     matches = _is_instance(obj=obj, type_=other, type_vars=type_vars, context=context)
